@@ -671,8 +671,10 @@ class Watcher(object):
                 logger.debug('running %s process [pid %d]', self.name,
                              process.pid)
                 if not self.call_hook('after_spawn', pid=process.pid):
+                    # keep it in self.processes until it is really dead:
+                    # the SIGKILL that follows the grace period is only
+                    # sent to processes we still know about
                     self.kill_process(process)
-                    del self.processes[process.pid]
                     return False
 
             # catch ValueError as well, as a misconfigured rlimit setting could
